@@ -35,7 +35,7 @@ struct Nt<'grammar> {
 
 impl<'grammar> TypeInferencer<'grammar> {
     fn new(grammar: &'grammar Grammar) -> NormResult<TypeInferencer<'grammar>> {
-        let types = TypeInferencer::make_types(grammar);
+        let types = TypeInferencer::make_types(grammar)?;
 
         let nonterminals = grammar
             .items
@@ -64,7 +64,7 @@ impl<'grammar> TypeInferencer<'grammar> {
         })
     }
 
-    fn make_types(grammar: &Grammar) -> Types {
+    fn make_types(grammar: &Grammar) -> NormResult<Types> {
         let opt_extern_token = grammar.extern_token();
 
         // Determine error type (if any).
@@ -102,7 +102,7 @@ impl<'grammar> TypeInferencer<'grammar> {
                 }
             }
 
-            types
+            Ok(types)
         } else {
             let extern_token = opt_extern_token.unwrap();
             let loc_type = extern_token
@@ -138,10 +138,20 @@ impl<'grammar> TypeInferencer<'grammar> {
                     continue;
                 }
                 let ty = maybe_tuple(tys);
+                let prev = types.terminal_type(&conversion.from);
+                if prev != types.terminal_token_type() && *prev != ty {
+                    return_err!(
+                        conversion.span,
+                        "terminal `{}` has conversions of different types: `{}` and `{}`",
+                        conversion.from,
+                        prev,
+                        ty
+                    );
+                }
                 types.add_term_type(conversion.from.clone(), ty);
             }
 
-            types
+            Ok(types)
         }
     }
 
